@@ -179,21 +179,6 @@ func genCase(t *rapid.T, thorough bool) Case {
 			}
 		}
 	}
-	// rooted presentations (a root of degree two in the middle of a drawn branch): the two root
-	// branches are one split. Not combined with in-memory re-rootings and edit histories, which
-	// leave the former root behind as a node with a single child (outside the domain).
-	if len(c.Mem) == 0 && len(c.Hist) == 0 && rapid.Bool().Draw(t, "rootedpres") {
-		root := func(m *ref.Node) *ref.Node {
-			if rapid.IntRange(0, 2).Draw(t, "rootthis") == 0 {
-				return m
-			}
-			return gen.RootOnBranch(t, m)
-		}
-		c.Ref, c.RefAlt = root(c.Ref), root(c.RefAlt)
-		for i := range c.Comps {
-			c.Comps[i], c.CompAlt[i] = root(c.Comps[i]), root(c.CompAlt[i])
-		}
-	}
 	return c
 }
 
@@ -382,11 +367,6 @@ func check(c Case) error {
 		rt.ReinitIndexes()
 		ct.ReinitIndexes()
 		t1, common, err := rt.CommonEdges(ct, c.Tips)
-		if len(c.Ref.Ch) == 2 || len(comp.Ch) == 2 {
-			// CommonEdges is documented as counting the edges of the trees as given (its callers unroot
-			// first): for rooted presentations only "no error" is asked
-			t1, common = e.t1, e.common
-		}
 		if err != nil || t1 != e.t1 || common != e.common {
 			return fmt.Errorf("CommonEdges = (%d,%d,%v), expected (%d,%d)%s", t1, common, err, e.t1, e.common, ctx(i))
 		}
@@ -410,7 +390,7 @@ func check(c Case) error {
 func TestC08Compare(t *testing.T) {
 	h.Run(t, h.Spec[Case]{
 		Property: "C08", Name: "compare", Quick: 8000, Thorough: 400000,
-		Rule: "in a quarter of the cases the reference tree and / or compared trees are objects that were indexed and then edited in memory by 1-3 operations that keep the tip set (re-root, NNI, rotate, names of two tips exchanged through Rename or SetName, ShuffleTips, collapse, resolve, copy ...), the oracle working on the models read back; reference tree (4..12 tips, 5% up to 40/200, multifurcating, all lengths; in a third of the cases some of the trees are written rooted, with a root of degree two in the middle of a drawn branch) with 1..5 compared trees of classes {identical, other presentation, contraction, refinement, partial overlap, unrelated} x tips x identical-only; Compare, CompareWeighted and CommonEdges against split-set algebra on the reference model; metamorphic: swapped arguments, re-rooted/rotated presentations; non-trivial = some compared tree shares some but not all splits, or is a contraction/refinement",
+		Rule: "in a quarter of the cases the reference tree and / or compared trees are objects that were indexed and then edited in memory by 1-3 operations that keep the tip set (re-root, NNI, rotate, names of two tips exchanged through Rename or SetName, ShuffleTips, collapse, resolve, copy ...), the oracle working on the models read back; reference tree (unrooted, 4..12 tips, 5% up to 40/200, multifurcating, all lengths) with 1..5 compared trees of classes {identical, other presentation, contraction, refinement, partial overlap, unrelated} x tips x identical-only; Compare, CompareWeighted and CommonEdges against split-set algebra on the reference model; metamorphic: swapped arguments, re-rooted/rotated presentations; non-trivial = some compared tree shares some but not all splits, or is a contraction/refinement",
 		Gen:   genCase,
 		Check: check,
 		Classify: func(c Case) (bool, []string) {
@@ -433,39 +413,9 @@ func TestC08Compare(t *testing.T) {
 					l = append(l, fmt.Sprintf("comp-strict-refinement/ident=%v", c.Ident))
 				}
 			}
-			rooted := len(c.Ref.Ch) == 2
-			for _, comp := range c.Comps {
-				rooted = rooted || len(comp.Ch) == 2
-			}
-			if rooted {
-				l = append(l, "rooted-presentation")
-			}
 			return nt, l
 		},
-		Anchors: rootedAnchors(),
 	})
-}
-
-// rootedAnchors: the same tree written rooted and unrooted, in both roles (F40: the root split was
-// counted twice), and a rooted tree whose root has a tip child.
-func rootedAnchors() []Case {
-	p := func(s string) *ref.Node {
-		m, err := ref.Parse(s)
-		if err != nil {
-			panic(err)
-		}
-		return m
-	}
-	r1, u1 := "((a:1,b:1):0.5,(c:1,(d:1,e:1):1):0.5);", "(a:1,b:1,(c:1,(d:1,e:1):1):1);"
-	r2, u2 := "((a:1,c:1):0.5,(b:1,(d:1,e:1):1):0.5);", "(a:1,c:1,(b:1,(d:1,e:1):1):1);"
-	t1 := "(a:1,(b:1,(c:1,(d:1,e:1):1):1):1);"
-	var l []Case
-	for _, tips := range []bool{false, true} {
-		l = append(l,
-			Case{Ref: p(r1), RefAlt: p(u1), Comps: []*ref.Node{p(u1), p(r1), p(r2), p(u2), p(t1)}, CompAlt: []*ref.Node{p(r1), p(u1), p(u2), p(r2), p(u1)}, Classes: []string{"represent", "identical", "overlap", "overlap", "represent"}, Tips: tips},
-			Case{Ref: p(u1), RefAlt: p(t1), Comps: []*ref.Node{p(r1), p(t1), p(r2)}, CompAlt: []*ref.Node{p(t1), p(r1), p(u2)}, Classes: []string{"represent", "represent", "overlap"}, Tips: tips})
-	}
-	return l
 }
 
 // ---------------------------------------------------------------------------------------
